@@ -19,6 +19,7 @@
 -/
 import PyGqlModel.Props.C06_head
 import PyGqlModel.Props.C06_overlap_memo_complete
+import PyGqlModel.Props.C06_overlap_memo_modes
 namespace PyGql.Props.C06
 open PyGql PyGql.Validate PyGql.Validate.Spec
 
@@ -154,5 +155,20 @@ def deepSels : Nat → Nat → List Sel
 example : let dd : Doc := ⟨[opV [] 1 (deepSels 120 1)]⟩
     rankOkB oSchema dd (rankOf (computeRanks dd)) = false ∧ DocChecksMemo oSchema dd := by
   refine ⟨by decide +kernel, by decide +kernel, by decide +kernel⟩
+
+/-- non-vacuity on a document WITH sub-selections, a fragment spread below fields and mutually exclusive parents (the
+    memo-modes document of `Props/C06_overlap_memo_modes.lean`): every hypothesis of `rule_overlapping_fields_memo_iff_wf`
+    holds (the clauses of the four other rules through their own `rule_*_iff` theorems, by evaluating the model) -/
+example : (overlapMemoRun pSchema Fixes.all (pDoc pF1 pF2 pF3)).1 = 0 ↔
+    Spec.overlappingFieldsCanBeMerged pSchema (pDoc pF1 pF2 pF3) := by
+  have hne : NamesNonEmpty (pDoc pF1 pF2 pF3) := fun f hf => by
+    simp only [Spec.fragNames, pDoc] at hf
+    revert f; decide
+  have hnd : (Spec.fragNames (pDoc pF1 pF2 pF3)).Nodup := by decide
+  exact rule_overlapping_fields_memo_iff_wf pSchema Fixes.all rfl _ ⟨by decide, by decide⟩ hne
+    (schemaOutputs_of_check _ (by decide)) hnd
+    ((rule_no_fragment_cycles_iff pSchema Fixes.all rfl _ hnd hne).mp (by unfold Silent; decide +kernel))
+    ((rule_scalar_leafs_iff pSchema Fixes.all _).mp (by unfold Silent; decide +kernel))
+    ((rule_fragments_on_composite_types_iff pSchema Fixes.all _).mp (by unfold Silent; decide +kernel))
 
 end PyGql.Props.C06
